@@ -358,7 +358,39 @@ func (g gen) chunkings(stream []byte, frs []drpcwire.Frame) map[string][]int {
 		rem -= n
 	}
 	cs["random"] = rnd
+	// tail-together: the bytes before the start of one of the last complete frames arrive in random
+	// pieces, that frame and everything after it (further frames, an unfinished tail) in ONE read --
+	// as much of it as the reader offers room for -- and the transport's error right after (or with) it
+	starts := frameStarts(stream)
+	cut := 0
+	if len(starts) > 0 {
+		cut = starts[len(starts)-1-r.Intn(min(3, len(starts)))]
+	}
+	var tt []int
+	for rem := cut; rem > 0; {
+		n := 1 + r.Intn(1+r.Intn(200))
+		if n > rem {
+			n = rem
+		}
+		tt = append(tt, n)
+		rem -= n
+	}
+	cs["tailtogether"] = append(tt, 1<<30)
 	return cs
+}
+
+// frameStarts: offsets at which the complete frames of the stream start (reference decoder).
+func frameStarts(stream []byte) []int {
+	var out []int
+	off := 0
+	for {
+		r := wire.RefDecode(stream[off:])
+		if r.State() != "ok" {
+			return out
+		}
+		out = append(out, off)
+		off = len(stream) - r.Rem()
+	}
 }
 
 func sizesStr(s []int) string {
@@ -382,6 +414,13 @@ func sizesStr(s []int) string {
 	return strings.Join(parts, ",")
 }
 
+func placement(attached bool) string {
+	if attached {
+		return "with the last data"
+	}
+	return "after the last data"
+}
+
 func capBound(max int) int { return 2*max + 12348 }
 
 func Run(o *corr.Out) {
@@ -391,6 +430,7 @@ func Run(o *corr.Out) {
 	if o.Thorough {
 		nStreams = 12000
 	}
+	var bothPlacements bool // run every chunking with the final error attached to AND following the last data
 	check := func(stream []byte, frs []drpcwire.Frame, max int, class string) {
 		final := 0
 		if o.Rand.Intn(3) == 0 {
@@ -399,27 +439,43 @@ func Run(o *corr.Out) {
 		ref := reference(stream, max, final)
 		var first string
 		var firstName string
-		names := []string{"all", "one", "seven", "aligned", "straddle", "random"}
+		names := []string{"all", "one", "seven", "aligned", "straddle", "random", "tailtogether"}
 		cs := g.chunkings(stream, frs)
+		type pl struct {
+			name     string
+			attached bool
+			second   bool
+		}
+		var plan []pl
 		for _, name := range names {
-			sizes := cs[name]
 			attached := o.Rand.Intn(2) == 0
+			plan = append(plan, pl{name, attached, false})
+			if bothPlacements {
+				plan = append(plan, pl{name, !attached, true})
+			}
+		}
+		for _, p := range plan {
+			name, attached := p.name, p.attached
+			sizes := cs[name]
 			res := run(stream, max, sizes, final, attached, 0)
 			obs := res.observable()
 			o.Stat("reader:" + class + ":" + res.err)
+			o.Stat("reader:chunking:" + name + ":attached=" + corr.B01(attached))
 			req := fmt.Sprintf("reader max=%d final=%d stream=%s chunks=%s", max, final, corr.Hex(stream), sizesStr(sizes))
-			o.Case(req, res.full(), len(frs) >= 2 && len(sizes) >= 2)
+			if !p.second { // the request does not name the placement (the model delivers the error on the next read)
+				o.Case(req, res.full(), len(frs) >= 2 && len(sizes) >= 2)
+			}
 			if first == "" {
 				first, firstName = obs, name
 			} else if obs != first {
 				o.Oracle("chunk-independence", fmt.Sprintf("max=%d final=%d stream=%s", max, final, corr.Hex(stream)),
-					fmt.Sprintf("%s: %s ||| %s(%s): %s", firstName, clip(first), name, sizesStr(sizes), clip(obs)))
+					fmt.Sprintf("%s: %s ||| %s(%s, error %s): %s", firstName, clip(first), name, sizesStr(sizes), placement(attached), clip(obs)))
 			} else {
 				o.OracleOK("chunk-independence")
 			}
 			if strings.TrimSpace(obs) != strings.TrimSpace(ref) {
 				o.Oracle("reference-reassembly", fmt.Sprintf("max=%d final=%d stream=%s chunks=%s", max, final, corr.Hex(stream), sizesStr(sizes)),
-					fmt.Sprintf("impl: %s ||| ref: %s", clip(obs), clip(ref)))
+					fmt.Sprintf("impl (error %s): %s ||| ref: %s", placement(attached), clip(obs), clip(ref)))
 			} else {
 				o.OracleOK("reference-reassembly")
 			}
@@ -498,6 +554,57 @@ func Run(o *corr.Out) {
 			check(stream, []drpcwire.Frame{{}, {}}, max, "hugelen")
 		}
 	}
+	// the transport fails in the middle of a frame that can never be accepted: complete frames followed by
+	// the first t bytes of a frame announcing more than the maximum, t around the rejection threshold
+	// max+31 (the statement: the first error and its class depend only on the bytes -- at max+32 unparsed
+	// bytes the stream is rejected with a protocol error however the bytes and the transport's error arrive,
+	// up to max+31 the transport's error is reported). Every chunking with both placements of the error.
+	bothPlacements = true
+	for _, max := range maxes {
+		for prefix := 0; prefix < 3; prefix++ {
+			var frs []drpcwire.Frame
+			pname := ""
+			switch prefix {
+			case 0: // one small packet
+				frs = []drpcwire.Frame{{Data: []byte("hi"), ID: drpcwire.ID{Stream: 1, Message: 1}, Kind: 2, Done: true}}
+				pname = "small"
+			case 1: // what a stream layer emits (packets up to the maximum: the read buffer has grown)
+				frs = g.producible(max)
+				pname = "producible"
+			default: // several small frames, the last packet unfinished (the cut frame continues it)
+				n := 2 + o.Rand.Intn(8)
+				for m := 1; m <= n; m++ {
+					frs = append(frs, drpcwire.Frame{Data: g.payload(o.Rand.Intn(min(max, 40) + 1)), ID: drpcwire.ID{Stream: 1, Message: uint64(m)}, Kind: 2, Done: m < n})
+				}
+				pname = "unfinished"
+			}
+			last := frs[len(frs)-1]
+			id := last.ID
+			if last.Done {
+				id.Message++
+			}
+			tails := []int{max + 30, max + 31, max + 32, max + 33, max + 32 + 1 + o.Rand.Intn(200)}
+			if o.Thorough {
+				tails = append(tails, max+32+o.Rand.Intn(20), 2*max+100+o.Rand.Intn(4096), max/2+16)
+			}
+			for _, t := range tails {
+				hdr := []byte{byte(last.Kind) << 1}
+				hdr = drpcwire.AppendVarint(hdr, id.Stream)
+				hdr = drpcwire.AppendVarint(hdr, id.Message)
+				// announced length: a few bytes more than what arrives, somewhat more, far more
+				declared := []uint64{uint64(t), uint64(t + 1 + o.Rand.Intn(5000)), 1 << 20, 1 << 40}[o.Rand.Intn(4)]
+				hdr = drpcwire.AppendVarint(hdr, declared)
+				if t <= len(hdr) {
+					continue
+				}
+				stream := append(enc(frs), hdr...)
+				stream = append(stream, g.payload(t-len(hdr))...)
+				o.Stat(fmt.Sprintf("reader:cutover:prefix=%s:tail-minus-max=%s", pname, bucket(t-max)))
+				check(stream, append(append([]drpcwire.Frame(nil), frs...), drpcwire.Frame{}), max, "cutover")
+			}
+		}
+	}
+	bothPlacements = false
 	// non-canonical 31-byte headers with payload exactly max (slack boundary), and one above
 	for _, max := range []int{100, 1000, 4096} {
 		for _, extra := range []int{0, 1} {
@@ -602,6 +709,18 @@ func idsBackwards(pkts []string) string {
 		ps, pm = s, m
 	}
 	return ""
+}
+
+func bucket(d int) string {
+	switch {
+	case d < 30:
+		return "<30"
+	case d <= 33:
+		return strconv.Itoa(d)
+	case d <= 232:
+		return "34..232"
+	}
+	return ">232"
 }
 
 func clip(s string) string {
